@@ -585,7 +585,7 @@ def gen_text(rng, boundary: bytes, eol=None):
 
 
 NAMES = ["a", "field", "f 1", "naïve", "x\"y", "a;b", "semi;colon;two", "back\\slash", "файл", "a=b", "sp ace ", " lead",
-         "/abs", "\\\\unc", "per%20cent", "q'uote", "tab\tname", "日本語.txt", "a b", "_charset", "plus+", "*star", "x" * 80]
+         "/abs", "\\\\unc", 'a";b', "per%20cent", "q'uote", "tab\tname", "日本語.txt", "a b", "_charset", "plus+", "*star", "x" * 80]
 
 
 def _gen_spec_flat(rng, quick=True, kinds=None, boundary=None):
@@ -1104,6 +1104,8 @@ def suite_roundtrip(ctx, exe, specs=None):
 
 
 def build_model():
+    if os.environ.get("C19_MODEL_EXE"):          # development only: a model runner built elsewhere
+        return True, os.environ["C19_MODEL_EXE"]
     return fw.ocaml_model("C19", ["Model/Multipart.vo", "Model/MultipartSpec.vo"])
 
 
@@ -1171,12 +1173,12 @@ def sig_disposition_semicolons(case, params):
     d = case.get("detail") or {}
     if d.get("read") is not None:
         return False
-    return any(v.count(";") >= 2 or '\\";' in v for v in _quoted_values(d.get("disposition") or ""))
+    return any('\\";' in v for v in _quoted_values(d.get("disposition") or ""))
 
 
 def sig_disposition_leading_slash(case, params):
-    """leading '/' and '\\' of a quoted parameter value are stripped by parse_content_disposition"""
-    if case.get("violation_kind") not in ("name", "filename"):
+    """leading '/' and '\\' of a quoted FILE NAME are stripped by parse_content_disposition (field names are not)"""
+    if case.get("violation_kind") != "filename":
         return False
     d = case.get("detail") or {}
     w, r = d.get("written"), d.get("read")
@@ -1245,7 +1247,8 @@ def run(ctx):
 def run_corpus(ctx, exe):
     d = os.path.join(fw.VERIF, "corpus", PROP)
     ran = 0
-    for fn in sorted(os.listdir(d)) if os.path.isdir(d) else []:
+    # regression cases of repaired defects run first
+    for fn in sorted(os.listdir(d), key=lambda n: (not n.startswith("fixed-"), n)) if os.path.isdir(d) else []:
         if not fn.endswith(".json"):
             continue
         payload = json.load(open(os.path.join(d, fn)))
